@@ -376,11 +376,27 @@ def run(chk):
     rej("C01.rej.afterclose", fd, [("self._should_close", True, "a previous message asked to close")], ALL, "data after Connection: close", extra=[("self._should_close", True)])
     rej("C01.rej.linelong", fd, [([("len(line) > $L", True), ("line_len > $L", True)], True, "complete line longer than its limit")], ALL, "start/header line too long")
     rej("C01.rej.toomany", fd, [("len(self._lines) > self.max_headers", True, "too many header lines")], ALL, "too many headers", extra=[("len(line) > $L", False)])
-    rej("C01.rej.barelf", fd, [("b'\\n' in self._tail", True, "bare LF in a line without CRLF")], ALL, "bare LF in start line / header")
+    TAILS = K.tail_spellings(fd, "_tail")  # the partial line is measured as it is stored, or before (on the value about to be stored)
+    rej("C01.rej.barelf", fd, [([(f"b'\\n' in {t_}", True) for t_ in TAILS], True, "bare LF in a line without CRLF")], ALL, "bare LF in start line / header")
     # ... and in a *complete* start line too, otherwise `GET /a\nb HTTP/1.1` is refused only if a read happens to end between the LF and the
     # line's CRLF (header lines are covered by the control-character check of parse_headers)
     rej("C01.rej.barelf", fd, [("b'\\n' in line", True, "bare LF in a complete start line")], ALL, "bare LF in a complete start line", extra=[("self._lines", False), ("$S == b'\\n'", False)])  # strict mode: the separator is CRLF
-    rej("C01.rej.taillong", fd, [("len(self._tail) - self._tail.endswith(b'\\r') > $L", True, "buffered partial line too long")], ALL, "buffered partial line too long", extra=[("b'\\n' in self._tail", False)])
+    rej("C01.rej.taillong", fd, [([(f"len({t_}) - {t_}.endswith(b'\\r') > $L", True) for t_ in TAILS], True, "buffered partial line too long")], ALL, "buffered partial line too long",
+        extra=[(f"b'\\n' in {t_}", False) for t_ in TAILS])
+    # RFC 9110 9.3.6: a CONNECT request has no content - framing headers must not decide whether what follows is tunnel data or further requests
+    cb = None
+    for r_, cname_ in K.raises_in(fd.node):
+        if cname_ not in errs:
+            continue
+        cl_ = PC.pc(r_, raw=True)
+        if any(len(c_) == 1 and l.pos and l.text in ("method == METH_CONNECT", "msg.method == METH_CONNECT", "method == 'CONNECT'") for c_ in cl_ for l in c_) and \
+                any(any("chunked" in l.text for l in c_) for c_ in cl_) and any(any(l.text.startswith("length") for l in c_) for c_ in cl_):
+            cb = r_
+    if cb is not None:
+        chk.ok("C01.rej.connectbody", cb, "a CONNECT request that declares a body (Content-Length > 0 or Transfer-Encoding) is refused before a payload branch is chosen")
+    else:
+        chk.violation("C01.rej.connectbody", fd, "if method == METH_CONNECT", "and ((length is not None and length > 0) or msg.chunked): raise BadHttpMessage",
+                      "feed_data() tests `has a body` before `is CONNECT`: `CONNECT remote:80` with `Content-Length: 1` reads one byte and stays in HTTP mode - after a forward proxy answered 200, what the client sends through the tunnel (`GET /admin ...`, meant for the remote) is parsed and answered by the proxy's own handlers")
     rej("C01.rej.wskey1", fd, [("hdrs.SEC_WEBSOCKET_KEY1 in $H", True, "hixie-76 key")], ALL, "Sec-WebSocket-Key1",
         extra=[("len(line) > $L", False), ("len(self._lines) > self.max_headers", False)])
     # request line
@@ -439,7 +455,8 @@ def run(chk):
         extra=[("chunk == $S[:len(chunk)]", False), ("len(chunk) < len($S)", False), ("$E == $S[:len($E)]", False), ("len($E) < len($S)", False)])
     rej("C01.rej.trailerlong", pp, [([("len(line) > self._max_field_size", True), ("line_len > self._max_field_size", True)], True, "trailer too long")], ALL, "trailer line too long")
     rej("C01.rej.trailers", pp, [("len(self._trailer_lines) > self._max_trailers", True, "too many trailers")], ALL, "too many trailers", extra=[("len(line) > self._max_field_size", False)])
-    rej("C01.rej.chunktail", pp, [("len(self._chunk_tail) - self._chunk_tail.endswith(b'\\r') > $L", True, "buffered partial chunk-size/trailer line too long")], ALL,
+    CTAILS = K.tail_spellings(pp, "_chunk_tail")
+    rej("C01.rej.chunktail", pp, [([(f"len({t_}) - {t_}.endswith(b'\\r') > $L", True) for t_ in CTAILS], True, "buffered partial chunk-size/trailer line too long")], ALL,
         "buffered partial chunk line too long", extra=[])
 
     # ------------------------------------------------------------------ C01.strip
@@ -600,6 +617,17 @@ def run(chk):
                 chk.ok("C01.rej.hostsyntax", hre[0], "the Host value is gated by a pattern that admits host[:port] forms and refuses userinfo, path, query, fragment, blanks and unbalanced brackets")
         except (NotConst, AttributeError) as e:
             chk.analysis_error(f"C01.rej.hostsyntax: cannot fold the Host pattern: {e}")
+    # CONNECT takes the authority-form (RFC 9112 3.2.3): the same `uri-host[:port]` gate as the Host value, before URL.build(authority=...)
+    ct = None
+    for r_, cname_ in K.raises_in(pm.node):
+        cl_ = PC.pc(r_, raw=True)
+        if any(len(c_) == 1 and l.pos and l.text in ("method == 'CONNECT'", "method == METH_CONNECT", "method == hdrs.METH_CONNECT") for c_ in cl_ for l in c_) and PC.has_lit(cl_, [("$R.fullmatch(path)", False), ("$R.fullmatch(path) is None", True)], True) is not None:
+            ct = r_
+    if ct is not None:
+        chk.ok("C01.rej.connecttarget", ct, "the CONNECT request-target is matched against the host[:port] pattern before it becomes the URL's authority")
+    else:
+        chk.violation("C01.rej.connecttarget", pm, "url = URL.build(authority=path, encoded=True)", "if not _HOST_RE.fullmatch(path): raise ValueError(...)",
+                      "the CONNECT target is not checked to be in authority-form: `CONNECT  HTTP/1.1` (empty), `CONNECT /admin`, `CONNECT user@h:1`, `CONNECT :80` are accepted and switch the connection to tunnel mode, where `GET  HTTP/1.1` is a 400")
     # ------------------------------------------------------------------ C01.reqbody
     reqbody(chk, repo)
     # ------------------------------------------------------------------ C01.err400
